@@ -186,3 +186,43 @@ def soup(rng, maxlen_exhaustive, nsample, maxlen_sample):
         res.append(("soup-body", "int\tf(void)\n{\n\t" + t))
         res.append(("soup-nl", t + "\n"))
     return res
+
+
+def dictionary_words():
+    """the code's own vocabulary as an adversarial dictionary: every name defined in norminette's sources and what is
+    left of it after each of its underscore-separated prefixes is cut off (a handler looked up as `prefix_<word>`
+    answers to <word>), plus every other identifier and string-like word of the sources.  Returns (names, others)."""
+    import os, re
+    from impl import REPO
+    defs, others = set(), set()
+    for root, _, fs in os.walk(os.path.join(REPO, "norminette")):
+        for f in fs:
+            if not f.endswith(".py"):
+                continue
+            text = open(os.path.join(root, f), encoding="utf-8", errors="replace").read()
+            for m in re.finditer(r"\bdef\s+([A-Za-z_][A-Za-z_0-9]*)|\bclass\s+([A-Za-z_][A-Za-z_0-9]*)", text):
+                name = m.group(1) or m.group(2)
+                parts = name.strip("_").split("_")
+                for k in range(len(parts)):
+                    w = "_".join(parts[k:])
+                    if w:
+                        defs.add(w)
+            for w in re.findall(r"[A-Za-z_][A-Za-z_0-9]*", text):
+                others.add(w)
+    return sorted(defs), sorted(others - defs)
+
+
+def dictionary_cases(rng, n_other):
+    """(kind, text): each word as a directive name (outside and inside a conditional, both spellings of `#`), as a
+    macro, as an identifier in a statement and as a label"""
+    defs, others = dictionary_words()
+    words = defs + rng.sample(others, min(n_other, len(others)))
+    out = []
+    for w in words:
+        out.append(("dict-directive", "#%s\n" % w))
+        out.append(("dict-directive-in-if", "#ifdef A\n# %s x\n#endif\n" % w))
+        if rng.random() < 0.25:
+            out.append(("dict-directive-digraph", "%%:%s\n" % w.upper()))
+            out.append(("dict-macro", "#define %s(%s) #%s\n" % (w.upper(), w, w)))
+            out.append(("dict-statement", "int\tf(int %s)\n{\n\t%s = %s(%s);\n%s:\n\treturn (%s);\n}\n" % (w, w, w, w, w, w)))
+    return out
